@@ -738,3 +738,115 @@ func genProgram(r *gen.R, maxNodes int) *program {
 	}
 	return p
 }
+
+// --- additional builders for the sites named in C02 / C17 ---------------------
+
+func bExpand(p *program) bool {
+	x, ok := p.pick(func(n string, t *ref.T) bool { return isF32(n, t) && len(t.Bits) <= 60 })
+	if !ok {
+		return false
+	}
+	xv := p.Values[x]
+	target := make([]int64, xv.Rank()+p.r.Range(0, 1))
+	for i := range target {
+		j := xv.Rank() - len(target) + i
+		switch {
+		case j >= 0 && xv.Shape[j] != 1:
+			target[i] = int64(xv.Shape[j])
+		case p.r.Chance(0.5):
+			target[i] = 1 // identity along this axis: Expand may return its input object
+		default:
+			target[i] = int64(p.r.Range(2, 3))
+		}
+	}
+	if len(target) == 0 {
+		return false
+	}
+	s := p.addInit("shape", gen.I64s(target...))
+	_, ok = p.addNode(progNode{G: mon.GNode{Op: "Expand", Inputs: []string{x, s}}, Mode: CmpBits, Eval: exactEval(func(in []*ref.T) (*ref.T, error) { return ref.Expand(in[0], in[1].Ints()) })})
+	return ok
+}
+
+func bScalerLinReg(p *program) bool {
+	x, ok := p.pick(func(n string, t *ref.T) bool { return isF32(n, t) && t.Rank() == 2 })
+	if !ok {
+		return false
+	}
+	xv := p.Values[x]
+	c := xv.Shape[1]
+	if p.r.Bool() {
+		o32, o64 := f32s(p.r, c)
+		s32, s64 := f32s(p.r, c)
+		_, ok = p.addNode(progNode{G: mon.GNode{Op: "Scaler", Inputs: []string{x}, Attrs: []*mon.Attr{mon.AttrFloats("offset", o32), mon.AttrFloats("scale", s32)}}, Mode: CmpTol, Eval: approxEval(func(in []*ref.T) (*ref.Approx, error) { return ref.Scaler(in[0], o64, s64) })})
+	} else {
+		t := p.r.Range(1, 3)
+		c32, c64 := f32s(p.r, t*c)
+		i32, i64 := f32s(p.r, t)
+		_, ok = p.addNode(progNode{G: mon.GNode{Op: "LinearRegressor", Inputs: []string{x}, Attrs: []*mon.Attr{mon.AttrFloats("coefficients", c32), mon.AttrFloats("intercepts", i32), mon.AttrI("targets", int64(t))}}, Mode: CmpTol, Eval: approxEval(func(in []*ref.T) (*ref.Approx, error) { return ref.LinearRegressor(in[0], c64, i64, t) })})
+	}
+	if ok {
+		p.inheritBatch(x)
+	}
+	return ok
+}
+
+func bPRelu(p *program) bool {
+	x, ok := p.pick(func(n string, t *ref.T) bool { return isF32(n, t) && t.Rank() >= 1 })
+	if !ok {
+		return false
+	}
+	xv := p.Values[x]
+	ss := []int{xv.Shape[xv.Rank()-1]}
+	if p.r.Bool() {
+		ss = []int{1}
+	}
+	s := p.addInit("slope", p.smallWeights(ss, 1))
+	_, ok = p.addNode(progNode{G: mon.GNode{Op: "PRelu", Inputs: []string{x, s}}, Mode: CmpIEEE, Eval: approxEval(func(in []*ref.T) (*ref.Approx, error) { return ref.PRelu(in[0], in[1]) })})
+	if ok {
+		p.inheritBatch(x)
+	}
+	return ok
+}
+
+func bSqueezeAll(p *program) bool {
+	x, ok := p.pick(func(n string, t *ref.T) bool {
+		if len(t.Bits) == 0 || len(t.Bits) > 400 {
+			return false
+		}
+		for _, e := range t.Shape {
+			if e == 1 {
+				return true
+			}
+		}
+		return false
+	})
+	if !ok {
+		return false
+	}
+	_, ok = p.addNode(progNode{G: mon.GNode{Op: "Squeeze", Inputs: []string{x}}, Mode: CmpBits, Eval: exactEval(func(in []*ref.T) (*ref.T, error) { return ref.Squeeze(in[0], nil, false) })})
+	return ok
+}
+
+func init() {
+	allBuilders["Expand"] = bExpand
+	allBuilders["ScalerLinReg"] = bScalerLinReg
+	allBuilders["PRelu"] = bPRelu
+	allBuilders["SqueezeAll"] = bSqueezeAll
+	builderNames = append(builderNames, "Expand", "ScalerLinReg", "PRelu", "SqueezeAll")
+}
+
+// promote turns some initializers into graph inputs supplied by the caller, so
+// that caller tensors play the special roles (convolution bias, initial
+// recurrent state, reduction operand, shape parameters).
+func (p *program) promote(prob float64) {
+	var keep []mon.GInit
+	for _, it := range p.Inits {
+		if p.Shadow[it.Name] || !p.r.Chance(prob) {
+			keep = append(keep, it)
+			continue
+		}
+		p.Inputs = append(p.Inputs, mon.GInput{Name: it.Name, DT: it.T.DT, Dims: mon.FixedDims(it.T.Shape)})
+		p.Feed[it.Name] = it.T
+	}
+	p.Inits = keep
+}
